@@ -126,6 +126,14 @@ func (s *Session[K]) CheckPurity(r *rng.R) {
 			}{"near", s.K.Near(r, st)},
 		)
 	}
+	for _, d := range s.recentlyDeleted {
+		if !s.M.Has(d) {
+			probes = append(probes, struct {
+				class string
+				k     K
+			}{"recently_deleted", d})
+		}
+	}
 	for _, p := range probes {
 		k := p.k
 		s.bracket(fmt.Sprintf("Search(%s)", s.K.Show(k)), func() { s.T.Search(s.fresh(k)) })
